@@ -18,6 +18,16 @@ CHECKS = {
             '3/C20'),
 }
 
+CHECKS['C18'] = (
+    'bounded-exhaustive operation sequences + Hypothesis histories vs Python list model',
+    'every sequence up to depth 3 (quick; depth 4 over a reduced operation set in thorough) of ~100 list operations '
+    '(append/extend/insert at boundary indices/remove/pop/reverse/clear/indexing/slicing; object, coercible-string and '
+    'mismatched-string arguments; textual twins) on argument lists of length 0..2 owned by a command is run against a '
+    'Python list of the same objects: elements by identity, return values, exception classes, str(args), str(owner). '
+    'Exploration within those bounds.',
+    'trusts Python list semantics; the whitespace proxy TexArgs.all is measured but not judged (not in the statement)',
+    '3/C18')
+
 PENDING = {}
 
 
